@@ -371,3 +371,24 @@ def c13(tier):
 
 
 PROPS.update({'C11': c11, 'C12': c12, 'C13': c13})
+
+
+def c19(tier):
+    chk = core.Check('C19', tier)
+    prof = profile_for(tier)
+    chk.assumptions = ASSUME_REGMC[:3] + ["rustc's derive(Debug) on a twin plain struct (same name, declared field names and order, getter types) defines 'the standard struct format'"]
+    structs = sets.debug_structs(tier)
+    ws = build_set(chk, f"debug-{tier}", structs, prof)
+    if ws is None:
+        return chk.finish()
+    rep = B.run(ws, prof, 'debug', ['--full-n', 12 if tier == 'quick' else 16], out_name=f"report-C19-{prof}.json")
+    chk.add_report(rep, f"debug:{prof}")
+    if rep['machines'] != len(structs):
+        core.vacuous("debug machines missing")
+    chk.bounds.append("debug layouts over bases " + ("{u3,u8,u12,u16,u24,u32,u64,u100,u128}" if tier == 'quick' else "u1..u16 and 13 wide bases") +
+                      ": single fields of every kind (bool, uN, native, signed, exhaustive enum, Option<enum>, nested debug bitfield, multi-range), windows of 2-5 fields in three declaration orders, all kinds at once (both orders), "
+                      "no fields; both {:?} and {:#?}; all 2^N raw values for N<=" + ("12" if tier == 'quick' else "16") + ", A(N) above; expected text = derive(Debug) twin filled from the reference register")
+    return chk.finish()
+
+
+PROPS['C19'] = c19
